@@ -643,6 +643,12 @@ func runC07(r *Run, verifDir string) {
 						if bo, ok := dc.cond.(*ssa.BinOp); ok && dc.outcome && bo.Op == token.GTR && bo.X == ssa.Value(needPhi) && isCapOf(bo.Y, other) {
 							capOK = true
 						}
+						// the same test on the difference: `missing := need - cap(buf); if missing > 0`
+						if bo, ok := dc.cond.(*ssa.BinOp); ok && bo.X == ssa.Value(sub) {
+							if k, isK := constIntVal(bo.Y); isK && ((bo.Op == token.GTR && k == 0 && dc.outcome) || (bo.Op == token.GEQ && k == 1 && dc.outcome) || (bo.Op == token.LEQ && k == 0 && !dc.outcome) || (bo.Op == token.LSS && k == 1 && !dc.outcome)) {
+								capOK = true
+							}
+						}
 					}
 				}
 			}
